@@ -173,7 +173,8 @@ func genC02Node(r *prng, tier string) *Plan {
 	p.Knobs["seen_ttl_ms"] = float64(ttl)
 	p.Knobs["idfn"] = float64(r.intn(3))
 	genDegrees(r, p, 4)
-	p.Knobs["nval_default"] = float64(r.rng(1, 2))
+	p.SK["sign"] = []string{"strict", "strict", "strictnosign", "laxnosign"}[r.intn(4)]
+	p.Knobs["nval_default"] = float64(r.rng(0, 2))
 	p.Knobs["topic_val"] = float64(r.intn(2))
 	p.Knobs["v0_inline"] = float64(r.intn(2))
 	p.Knobs["v1_inline"] = float64(r.intn(2))
@@ -202,8 +203,10 @@ func genC02Node(r *prng, tier string) *Plan {
 		i := int64(r.intn(np))
 		x := r.intn(100)
 		switch {
-		case x < 18:
+		case x < 15:
 			add("pub", i, 0, int64(r.rng(8, 60)))
+		case x < 18:
+			add("pubdup", i, 0, int64(r.rng(8, 60)))
 		case x < 50:
 			add("resend", i, int64(r.intn(5)))
 		case x < 56:
@@ -270,6 +273,7 @@ func runC02Node(s *sim) {
 		local bool
 	}
 	arrivals := map[string][]sight{}
+	localAttempts := map[string][]time.Duration{} // local publications of an ID that also exists remotely
 	w.onFakePub = func(fp *fakePeer, m *pb.Message) {
 		id := idOf(m)
 		arrivals[id] = append(arrivals[id], sight{s.now(), false})
@@ -283,6 +287,7 @@ func runC02Node(s *sim) {
 		data := m.GetData()
 		if idfn != 0 {
 			arrivals[idOf(m)] = append(arrivals[idOf(m)], sight{s.now(), true})
+			localAttempts[idOf(m)] = append(localAttempts[idOf(m)], s.now())
 			s.probe("local_publish_same_id")
 		}
 		s.do("Publish same content", func() any {
@@ -309,10 +314,16 @@ func runC02Node(s *sim) {
 		// exactly when markSeen reported the ID as new); validator invocations and deliveries per ID
 		sightings := map[string][]time.Duration{}
 		w.n.mu.Lock()
+		// (unsigned messages with no validator registered skip the pipeline: they are marked seen and
+		// delivered in one step, so the delivery trace is the sighting)
+		noPipeline := len(w.vals) == 0 && (p.ks("sign", "strict") == "strictnosign" || p.ks("sign", "strict") == "laxnosign")
 		for _, r := range w.n.raw {
-			if r.kind == "validate" {
+			if r.kind == "validate" || (noPipeline && r.kind == "deliver") {
 				sightings[r.mid] = append(sightings[r.mid], r.t)
 			}
+		}
+		if noPipeline {
+			s.probe("no_validation_pipeline")
 		}
 		w.n.mu.Unlock()
 		vcount := map[string]int{}
@@ -380,6 +391,25 @@ func runC02Node(s *sim) {
 			n := dcount[k]
 			id := k[indexByte(k, '|')+1:]
 			ns := len(sightings[id])
+			if len(w.vals) == 0 {
+				// without validators a local publication leaves no sighting trace: it may count as a new
+				// sighting when it comes at least one TTL after the previous one (inside the TTL it must be a
+				// duplicate and deliver nothing)
+				ts := append([]time.Duration(nil), sightings[id]...)
+				sort.Slice(ts, func(i, j int) bool { return ts[i] < ts[j] })
+				for _, la := range localAttempts[id] {
+					ok := true
+					for _, t0 := range ts {
+						if la >= t0 && la < t0+ttl {
+							ok = false
+						}
+					}
+					if ok {
+						ns++
+						ts = append(ts, la)
+					}
+				}
+			}
 			if n > ns && !(ns == 0 && len(w.vals) == 0) {
 				s.violate("C02", "at-most-once", "C02/node/delivered-more-than-sighted", "%s got %d deliveries for %d sightings of the ID", sh(k), n, ns)
 			}
